@@ -574,37 +574,49 @@ Definition sub_value (latest : mapper) (mk fname : pystr) : pyval :=
   | e => enc_mapper e
   end.
 
-Lemma sub_mapper_enc latest mk fname :
+(* the text f"{mapped_key}" of a key: a str, or the class DoNotSerialize ("<class '...DoNotSerialize'>", read
+   from the GENERATED table of class texts: the model's [donot_repr] is what the source's module path gives) *)
+Definition key_text (X : mval) : res pystr :=
+  match X with Key s => Ok s | DoNot => Ok donot_repr | Sub _ => Raise Unmodelled end.
+
+Lemma m_format_enc X : m_format mappers_class_reprs (enc_mval X) = key_text X.
+Proof. destruct X; reflexivity. Qed.
+
+Lemma sub_mapper_enc latest kx mk fname :
+  m_format mappers_class_reprs kx = Ok mk ->
   (c <- py_not (m_isinstance mappers_class_table (enc_mapper latest) [MC_enum (s2p "mappers")]) ;;
-   if c then (s22 <- PyOpsDerive.py_format (PStr mk) ;; s23 <- PyOpsDerive.py_format (PStr fname) ;;
+   if c then (s22 <- m_format mappers_class_reprs kx ;; s23 <- m_format mappers_class_reprs (PStr fname) ;;
               t24 <- py_dict_get (enc_mapper latest) (PStr (s23 ++ s2p "._mapper")%list) PNone ;;
               t25 <- py_dict_get (enc_mapper latest) (PStr (s22 ++ s2p "._mapper")%list) t24 ;; Ok t25)
    else Ok (enc_mapper latest))
   = Ok (sub_value latest mk fname).
 Proof.
+  intros Hfmt.
   rewrite isinst_mapper_enum. destruct latest as [d| |]; try reflexivity.
-  cbn [py_not bind negb PyOpsDerive.py_format enc_mapper sub_value]. rewrite suffix_lit.
+  cbn [py_not bind negb enc_mapper sub_value]. rewrite Hfmt. cbn [bind m_format]. rewrite suffix_lit.
   rewrite py_dict_get_enc. cbn [bind]. rewrite py_dict_get_enc. cbn [bind]. reflexivity.
 Qed.
 
 (* the recursive call on a nested mapper and the store of its result *)
-Lemma rec_tail h f fs L' p acc mk :
+Lemma rec_tail h f fs L' p acc kx mk :
+  m_format mappers_class_reprs kx = Ok mk ->
   Src_add_mapper_to_aggregation_fuel h f (enc_mapper L') (enc_amap p) (PBool fs) = enc_res (add_agg fs L' p) ->
   (t28 <- Src_add_mapper_to_aggregation_fuel h f (enc_mapper L') (enc_mval (Sub p)) (PBool fs) ;;
-   s29 <- PyOpsDerive.py_format (PStr mk) ;;
+   s29 <- m_format mappers_class_reprs kx ;;
    t30 <- py_setitem (enc_amap acc) (PStr (s29 ++ s2p "._mapper")%list) t28 ;; Ok t30)
   = enc_res (r' <- add_val fs L' (Sub p) ;; Ok (alist_set acc (mk ++ suffix) r')).
 Proof.
-  intros IH. rewrite enc_mval_sub, IH, add_val_sub.
+  intros Hfmt IH. rewrite enc_mval_sub, IH, add_val_sub.
   destruct (add_agg fs L' p) as [r|e]; cbn [enc_res bind]; [|reflexivity].
-  cbn [PyOpsDerive.py_format bind]. rewrite <- (enc_mval_sub r), py_setitem_enc. reflexivity.
+  rewrite Hfmt. cbn [bind]. rewrite <- (enc_mval_sub r), py_setitem_enc. reflexivity.
 Qed.
 
-Lemma keep_tail acc mk v :
-  (s32 <- PyOpsDerive.py_format (PStr mk) ;;
+Lemma keep_tail acc kx mk v :
+  m_format mappers_class_reprs kx = Ok mk ->
+  (s32 <- m_format mappers_class_reprs kx ;;
    t33 <- py_setitem (enc_amap acc) (PStr (s32 ++ s2p "._mapper")%list) (enc_mval v) ;; Ok t33)
   = Ok (enc_amap (alist_set acc (mk ++ suffix) v)).
-Proof. cbn [PyOpsDerive.py_format bind]. rewrite py_setitem_enc. reflexivity. Qed.
+Proof. intros Hfmt. rewrite Hfmt. cbn [bind]. rewrite py_setitem_enc. reflexivity. Qed.
 
 Lemma src_add_fuel : forall fuel h fs latest prev,
     (py_height (enc_amap prev) < fuel)%nat -> mapper_wf latest = true -> amap_wf prev = true ->
@@ -651,26 +663,25 @@ Proof.
                    (if py_truthy (PBool fs) then Ok (PStr fname)
                     else (t19 <- Src_apply_mapper h (enc_mapper latest) (PStr fname) (enc_amap prev) (PBool fs) (PBool true) ;; Ok t19))
                    = Ok (enc_mval X) /\
-                   (if fs then @Ok pystr fname
-                    else match apply_key latest fname with Key s => Ok s | _ => Raise Unmodelled end)
-                   = match X with Key s => Ok s | _ => Raise Unmodelled end /\
+                   (if fs then @Ok pystr fname else mapped_key_of latest fname) = key_text X /\
                    (is_key X = false -> exists d, latest = MDict d)).
         { destruct fs; cbn [py_truthy].
           - exists (Key fname). repeat split. discriminate.
           - exists (apply_key latest fname). rewrite (src_apply_mapper_self h latest prev fname false Hl Hfn).
             repeat split. destruct latest as [d| |]; [eauto| |]; discriminate. }
         destruct Hmk as (X & E20 & Ehand & Hdict). cbv beta iota. rewrite E20, Ehand. cbn [bind]. clear E20 Ehand.
-        destruct X as [mk| |q].
-        -- (* the key is a str *)
-           change (enc_mval (Key mk)) with (PStr mk). cbn [bind]. rewrite sub_mapper_enc. cbn [bind].
+        pose proof (m_format_enc X) as Hfmt.
+        destruct (key_text X) as [mk|ex] eqn:Ekt.
+        -- (* the key has a text: a str, or the class DoNotSerialize *)
+           cbn [bind]. rewrite (sub_mapper_enc latest (enc_mval X) mk fname Hfmt). cbn [bind].
            destruct latest as [d| |].
            ++ cbn [sub_value sub_of].
               assert (Hsel : forall x, (alist_get d (mk ++ suffix) = Some x \/ alist_get d (fname ++ suffix) = Some x) ->
                         (if py_truthy (enc_mval x)
                          then (t28 <- Src_add_mapper_to_aggregation_fuel h f (enc_mval x) (enc_mval (Sub p)) (PBool fs) ;;
-                               s29 <- PyOpsDerive.py_format (PStr mk) ;;
+                               s29 <- m_format mappers_class_reprs (enc_mval X) ;;
                                t30 <- py_setitem (enc_amap acc) (PStr (s29 ++ s2p "._mapper")%list) t28 ;; Ok t30)
-                         else (s32 <- PyOpsDerive.py_format (PStr mk) ;;
+                         else (s32 <- m_format mappers_class_reprs (enc_mval X) ;;
                                t33 <- py_setitem (enc_amap acc) (PStr (s32 ++ s2p "._mapper")%list) (enc_mval (Sub p)) ;; Ok t33))
                         = enc_res (match x with
                                    | Sub [] | Key [] => Ok (alist_set acc (mk ++ suffix) (Sub p))
@@ -681,28 +692,26 @@ Proof.
                 assert (Hxw : mval_wf x = true) by (destruct Hx as [Hx|Hx]; apply (alist_get_wf d _ x Hl Hx)).
                 destruct Hf as [f' ->].
                 rewrite truthy_enc. destruct x as [[|c s]| |[|e q]].
-                - rewrite keep_tail. reflexivity.
+                - rewrite (keep_tail acc _ mk _ Hfmt). reflexivity.
                 - reflexivity.
                 - reflexivity.
-                - rewrite keep_tail. reflexivity.
-                - change (enc_mval (Sub (e :: q))) with (enc_mval (Sub (e :: q))).
-                  rewrite (enc_mval_sub (e :: q)).
+                - rewrite (keep_tail acc _ mk _ Hfmt). reflexivity.
+                - rewrite (enc_mval_sub (e :: q)).
                   change (enc_amap (e :: q)) with (enc_mapper (MDict (e :: q))).
-                  apply rec_tail. apply IHf; assumption. }
+                  apply (rec_tail h (S f') fs (MDict (e :: q)) p acc _ mk Hfmt). apply IHf; assumption. }
               destruct (alist_get d (mk ++ suffix)) as [x|] eqn:E1.
               ** cbv beta iota. rewrite (Hsel x (or_introl eq_refl)). destruct x as [[|c s]| |[|e q]]; reflexivity.
               ** destruct (alist_get d (fname ++ suffix)) as [x|] eqn:E2; cbv beta iota.
                  --- rewrite (Hsel x (or_intror eq_refl)). destruct x as [[|c s]| |[|e q]]; reflexivity.
-                 --- cbn [py_truthy]. rewrite keep_tail. reflexivity.
+                 --- cbn [py_truthy]. rewrite (keep_tail acc _ mk _ Hfmt). reflexivity.
            ++ cbn [sub_value sub_of enc_mapper py_truthy enc_lower].
-              change enc_lower with (enc_mapper MLower). apply rec_tail. apply IHf; assumption.
+              change enc_lower with (enc_mapper MLower). apply (rec_tail h f fs MLower p acc _ mk Hfmt). apply IHf; assumption.
            ++ cbn [sub_value sub_of enc_mapper py_truthy enc_camel].
-              change enc_camel with (enc_mapper MCamel). apply rec_tail. apply IHf; assumption.
-        -- (* the key would be built from DoNotSerialize: neither side predicts *)
-           destruct (Hdict eq_refl) as [d ->].
-           rewrite isinst_mapper_enum. reflexivity.
-        -- destruct (Hdict eq_refl) as [d ->].
-           rewrite isinst_mapper_enum. reflexivity.
+              change enc_camel with (enc_mapper MCamel). apply (rec_tail h f fs MCamel p acc _ mk Hfmt). apply IHf; assumption.
+        -- (* the key would be built from a dict: neither side predicts *)
+           assert (HX : is_key X = false) by (destruct X; [discriminate|discriminate|reflexivity]).
+           destruct (Hdict HX) as [d ->].
+           rewrite isinst_mapper_enum. cbn [py_not bind negb]. rewrite Hfmt. reflexivity.
 Qed.
 
 (* add_mapper_to_aggregation(latest_mapper, previous_mapper, for_serialization), for EVERY mapper and EVERY
@@ -839,13 +848,12 @@ Proof.
         destruct (str_endswith k suffix); [|discriminate].
         set (fname := firstn (length k - 8) k) in *.
         assert (Hfn : ascii_str fname = true) by (apply ascii_firstn; exact Hk).
-        assert (Hmk : exists mk, (if fs then @Ok pystr fname
-                                  else match apply_key latest fname with Key s => Ok s | _ => Raise Unmodelled end)
-                                 = Ok mk /\ ascii_str mk = true).
-        { destruct fs; [eauto|].
+        assert (Hmk : exists mk, (if fs then @Ok pystr fname else mapped_key_of latest fname) = Ok mk
+                                 /\ ascii_str mk = true).
+        { destruct fs; [eauto|]. unfold mapped_key_of in *.
           pose proof (apply_key_wf latest fname Hl Hfn) as Hak.
-          destruct (apply_key latest fname) as [s| |q]; try (cbv beta iota in Es; cbn [bind] in Es; discriminate).
-          eauto. }
+          destruct (apply_key latest fname) as [s| |q]; [eauto|exists donot_repr; split; reflexivity|].
+          cbn [bind] in Es. discriminate. }
         destruct Hmk as (mk & Emk & Hmka). rewrite Emk in Es. cbn [bind] in Es.
         assert (Hkey : ascii_str (mk ++ suffix) = true) by (apply ascii_suffix; exact Hmka).
         destruct (sub_of latest mk fname) as [|sub|] eqn:Esub.
@@ -1255,7 +1263,7 @@ Section Classes.
           destruct (cref_tests (enc_class c')) as [E1 _]. rewrite E1. cbn [bind].
           rewrite Enest.
           destruct (agg_list fs c' None) as [sub|e]; cbn [enc_res bind]; [|reflexivity].
-          cbn [PyOpsDerive.py_format bind]. rewrite setitem_sub. cbn [bind]. rewrite setitem_self. reflexivity.
+          cbn [m_format bind]. rewrite setitem_sub. cbn [bind]. rewrite setitem_self. reflexivity.
         * (* Array *)
           destruct (coll_tests KArr (enc_class c')) as [E1 E2]; [discriminate|]. rewrite E1. cbn [bind]. rewrite E2. cbn [bind].
           change (m_getattr_obj h (coll KArr (enc_class c')) (s2p "items")) with (Ok (cref (enc_class c'))).
@@ -1265,7 +1273,7 @@ Section Classes.
           rewrite (m_dict_update_fresh sub (Hsubwf sub eq_refl)). cbn [bind]. rewrite truthy_amap.
           destruct sub as [|e q]; cbn [bind].
           -- rewrite setitem_self. reflexivity.
-          -- cbn [PyOpsDerive.py_format bind]. rewrite setitem_sub. cbn [bind]. rewrite setitem_self. reflexivity.
+          -- cbn [m_format bind]. rewrite setitem_sub. cbn [bind]. rewrite setitem_self. reflexivity.
         * (* Set *)
           destruct (coll_tests KSet (enc_class c')) as [E1 E2]; [discriminate|]. rewrite E1. cbn [bind]. rewrite E2. cbn [bind].
           change (m_getattr_obj h (coll KSet (enc_class c')) (s2p "items")) with (Ok (cref (enc_class c'))).
@@ -1275,7 +1283,7 @@ Section Classes.
           rewrite (m_dict_update_fresh sub (Hsubwf sub eq_refl)). cbn [bind]. rewrite truthy_amap.
           destruct sub as [|e q]; cbn [bind].
           -- rewrite setitem_self. reflexivity.
-          -- cbn [PyOpsDerive.py_format bind]. rewrite setitem_sub. cbn [bind]. rewrite setitem_self. reflexivity.
+          -- cbn [m_format bind]. rewrite setitem_sub. cbn [bind]. rewrite setitem_self. reflexivity.
       + (* a plain field *)
         destruct (plain_tests k) as (E1 & E2 & E3). rewrite E1. cbn [bind]. rewrite E2. cbn [bind].
         rewrite E3. cbn [bind]. rewrite setitem_self. reflexivity.
